@@ -3,6 +3,7 @@ package props
 import (
 	"bytes"
 	"fmt"
+	"sort"
 
 	"verif/core"
 	"verif/fmts"
@@ -235,6 +236,14 @@ func runC07Read(ctx *core.Ctx, r *core.Rng) {
 			if m {
 				offs = append(offs, k)
 			}
+		}
+		if len(offs) > 1000 { // terminator-dense input: thin the stratum out, keep both ends
+			keep := []int{0}
+			for _, i := range r.Perm(len(offs) - 2)[:998] {
+				keep = append(keep, offs[i+1])
+			}
+			offs = append(keep, len(w))
+			sort.Ints(offs)
 		}
 		ctx.Stats.Inc("c07_inputs_offsets_stratified")
 	}
